@@ -24,7 +24,7 @@ ASSUMPTIONS = ["float64 CPU", "near-equilibrium closed-shell molecules with HOMO
                "the independent reference model (MNDO/AM1/PM3) or, for PM6_SP, by restarting a damped SCF 0.01 away from the state",
                "candidates the API flags not converged are counted, not compared",
                "KSA driven at T_el = 100 K (occupation smearing exp(-gap/2kT) < 1e-50)"]
-REQUIRED_MONITORS = ["batch_rows_compared", "batch_uhf_rows_compared", "candidates_compared", "sp2_candidates_compared", "uhf_candidates_compared",
+REQUIRED_MONITORS = ["batch_sp2_calls_uneven_sweeps", "batch_sp2_rows_vs_alone", "batch_rows_compared", "batch_uhf_rows_compared", "candidates_compared", "sp2_candidates_compared", "uhf_candidates_compared",
                      "restart_candidates_compared", "ksa_candidates_compared", "monotonicity_pairs"]
 CASE_TIMEOUT = 600.0
 BUDGET_S = {"quick": 200, "thorough": 1700}
@@ -128,6 +128,19 @@ def gen_cases(tier, seed):
         method = METHODS[i % 4]
         names = [n for n in gen.names_for(method, POOL) if len(gen.molecule(n)[0]) <= 6]
         batches.append(([names[int(j)] for j in g.permutation(len(names))[: int(g.integers(3, 5))]], method))
+    # SP2 in batches whose rows need different numbers of purification sweeps (small next to much larger molecule): the SP2
+    # candidates are judged row by row against the SAME solver configuration run on the molecule alone
+    ucands = [{"conv": [0, 0.3], "sp2": 1e-7, "uhf": False, "eps": 1e-10}, {"conv": [1], "sp2": 1e-5, "uhf": False, "eps": 1e-10},
+              {"conv": [2], "sp2": 1e-7, "uhf": False, "eps": 1e-10}]
+    uneven = [["CH4", "C6H6"], ["N2", "C6H6"]]
+    small_, large_ = ["CH4", "N2", "H2O", "NH3", "HF", "CO"], ["C6H6", "C2H6", "CH3NH2", "CH3OH", "HCOOH", "C2H4"]
+    for i in range(0 if tier == "quick" else 16):
+        kk = int(g.integers(3, 8)) if i % 4 == 0 else 2
+        uneven.append([_pick(g, small_), _pick(g, large_)] + [_pick(g, small_ + large_) for _ in range(kk - 2)])
+    for k, names in enumerate(uneven):
+        cases.insert(1 + k, {"kind": "batch", "sp2_alone": True, "mols": [{"name": n, "gseed": int(g.integers(0, 2**31))} for n in names],
+                             "method": "AM1", "sigma": 0.03, "pad": 0,
+                             "cands": [dict(c, sp2=float(_pick(g, [1e-5, 1e-7])) if tier == "thorough" else c["sp2"]) for c in ucands]})
     for k, (names, method) in enumerate(named + batches):
         cases.insert(1 + k, {"kind": "batch", "mols": [{"name": n, "gseed": int(g.integers(0, 2**31))} for n in names],
                              "method": method, "sigma": float(_pick(g, [0.02, 0.05])), "pad": int(g.integers(0, 2)),
@@ -182,7 +195,8 @@ def _run_batch(case):
     mon = {"batch_reference_runs": 0, "batch_candidates_run": 0, "batch_rows_compared": 0, "batch_uhf_rows_compared": 0,
            "batch_sp2_rows_compared": 0, "batch_rows_not_converged": 0, "batch_rows_ineligible": 0, "candidates_raised": 0,
            "failpoints_fired": 0, "uhf_broken_symmetry_below_rhf": 0, "batch_rows_other_stationary_point": 0,
-           "candidates_compared": 0, "uhf_candidates_compared": 0, "sp2_candidates_compared": 0, "get_error_calls": 0}
+           "candidates_compared": 0, "uhf_candidates_compared": 0, "sp2_candidates_compared": 0, "get_error_calls": 0,
+           "batch_sp2_calls_uneven_sweeps": 0, "batch_sp2_rows_vs_alone": 0}
     viol, margins, cells = [], {}, []
 
     def upd(name, val, tol):
@@ -232,6 +246,10 @@ def _run_batch(case):
     for c in case["cands"]:
         sett = run.settings(method, eps=c["eps"], converger=tuple(c["conv"]), sp2=c.get("sp2"), uhf=bool(c.get("uhf")))
         lw = scfmon.standard_watch(int(sl.MAX_ITER), {"SP2": 200}, 300, extra=False)
+        sweeps = scfmon.SP2SweepLog()
+        if c.get("sp2"):
+            from seqm.seqm_functions import SP2 as sp2mod
+            sweeps.attach(lw, sp2mod.SP2)
         elog = scfmon.ErrorLog(c["eps"])
         mon["batch_candidates_run"] += 1
         out = None
@@ -248,6 +266,7 @@ def _run_batch(case):
             lw.uninstall()
             elog.uninstall()
             mon["get_error_calls"] += elog.calls
+        mon["batch_sp2_calls_uneven_sweeps"] += sweeps.uneven_calls
         if out is None:
             continue
         if not c.get("uhf") and not c.get("sp2") and c["conv"][0] == 1:
@@ -328,6 +347,27 @@ def _run_batch(case):
                 if upd("batch_d%s/%s" % (k, grp), err[k], B[k]):
                     viol.append({"clause": "batch-row-d" + k, "mech": None,
                                  "detail": dict(detail, error=err[k], bound=B[k], ratio=err[k] / B[k], A=A)})
+            if case.get("sp2_alone") and c.get("sp2"):
+                # same solver configuration, molecule alone: SP2 acts row by row, both runs end within one admissible step
+                # of the same fixed point of the same map -> bounds in scf_eps (1e-10), not in the SP2 tolerance
+                try:
+                    al = run.single_point(Z, Xd, sett, charges=q, mult=1)
+                except Exception:
+                    al = None
+                if al is not None and not bool(np.any(al["notconverged"])):
+                    mon["batch_sp2_rows_vs_alone"] += 1
+                    ema = np.asarray(al["e_mo"][0])[:norb]
+                    e2 = {"E": abs(float(out["Etot"][b]) - float(al["Etot"][0])),
+                          "F": float(np.abs(out["force"][b][:nat] - al["force"][0][:nat]).max()),
+                          "q": float(np.abs(out["q"][b][:nat] - al["q"][0][:nat]).max()),
+                          "emo": float(np.abs(em[:norb] - ema).max())}
+                    ee = float(c["eps"])
+                    B2 = {"E": ABS_E + K_E * ee * A, "F": ABS_F + K_F * ee * A, "q": ABS_Q + K_Q * ee * A, "emo": ABS_EMO + K_EMO * ee * A}
+                    for k in ("E", "F", "q", "emo"):
+                        if upd("batch_sp2_vs_alone_d%s" % k, e2[k], B2[k]):
+                            viol.append({"clause": "batch-sp2-row-vs-alone-d" + k, "mech": None,
+                                         "detail": dict(detail, error=e2[k], bound=B2[k], ratio=e2[k] / B2[k], A=A,
+                                                        sweeps_per_row={str(kk): v[:4] for kk, v in sweeps.rows.items()})})
     return {"nontrivial": mon["batch_rows_compared"] > 0, "violations": viol, "margins": margins, "monitors": mon, "cells": cells,
             "obs": {"batch": [mm["name"] for mm in case["mols"]], "rows_compared": mon["batch_rows_compared"], "worst": margins}}
 
